@@ -276,3 +276,30 @@ func litNum(pfx string, i int) *JV {
 	}
 	panic("litNum")
 }
+
+// renderPatchWS: as renderPatch with whitespace around every token of the patch document and inside operation values.
+func renderPatchWS(ops []Op) []byte {
+	out := []byte(" [")
+	for i, op := range ops {
+		if i > 0 {
+			out = append(out, " ,\n"...)
+		}
+		out = append(out, "\t{ \"op\" : \""...)
+		out = append(out, opNamesJP[op.Kind]...)
+		out = append(out, "\" ,\r\n \"path\":\t\""...)
+		out = append(out, op.Path.text()...)
+		out = append(out, '"')
+		switch op.Kind {
+		case OpMove, OpCopy:
+			out = append(out, " , \"from\" : \""...)
+			out = append(out, op.From.text()...)
+			out = append(out, '"')
+		}
+		if op.HasVal {
+			out = append(out, " ,\"value\" :"...)
+			out = append(out, renderWS(op.Val)...)
+		}
+		out = append(out, " }"...)
+	}
+	return append(out, " ]\n"...)
+}
